@@ -63,6 +63,7 @@ pub const C_SELFDESTRUCT: u8 = 9;
 pub const C_LOG: u8 = 10;
 pub const C_INVALID: u8 = 11;
 pub const C_BALANCE: u8 = 12;
+pub const C_CTX: u8 = 13;
 
 pub fn interpreter_runtime() -> Vec<u8> {
     let mut a = Asm::new();
@@ -70,9 +71,9 @@ pub fn interpreter_runtime() -> Vec<u8> {
     a.push(REPORT).push(RP).op(op::MSTORE);
     a.label("loop");
     read_byte(&mut a); // [cmd]
-    let cmds: [(u8, &str); 12] = [
+    let cmds: [(u8, &str); 13] = [
         (C_SSTORE, "sstore"), (C_SLOAD, "sload"), (C_TSTORE, "tstore"), (C_TLOAD, "tload"), (C_CALL, "call"), (C_STATIC, "static"),
-        (C_DELEGATE, "delegate"), (C_REVERT, "revert"), (C_SELFDESTRUCT, "sd"), (C_LOG, "log"), (C_INVALID, "invalid"), (C_BALANCE, "balance"),
+        (C_DELEGATE, "delegate"), (C_REVERT, "revert"), (C_SELFDESTRUCT, "sd"), (C_LOG, "log"), (C_INVALID, "invalid"), (C_BALANCE, "balance"), (C_CTX, "ctx"),
     ];
     for (c, l) in cmds {
         a.op(op::DUP1).push(c as u64).op(op::EQ).push_label(l).op(op::JUMPI);
@@ -159,6 +160,15 @@ pub fn interpreter_runtime() -> Vec<u8> {
     a.op(op::SELFBALANCE);
     report(&mut a);
     a.push_label("loop").op(op::JUMP);
+
+    // execution context: CALLVALUE, CALLER, ADDRESS (the report keeps the low 8 bytes of each)
+    a.label("ctx");
+    a.op(op::POP);
+    for o in [0x34u8, 0x33, 0x30] {
+        a.op(o);
+        report(&mut a);
+    }
+    a.push_label("loop").op(op::JUMP);
     a.finish()
 }
 
@@ -179,6 +189,8 @@ pub enum Cmd {
     Log(u8),
     Invalid,
     Balance,
+    /// report CALLVALUE, CALLER and ADDRESS of the running frame
+    Ctx,
 }
 
 pub fn encode(cmds: &[Cmd], eth: &[[u8; 20]]) -> Vec<u8> {
@@ -220,6 +232,7 @@ pub fn encode(cmds: &[Cmd], eth: &[[u8; 20]]) -> Vec<u8> {
             Cmd::Log(t) => b.extend_from_slice(&[C_LOG, *t]),
             Cmd::Invalid => b.push(C_INVALID),
             Cmd::Balance => b.push(C_BALANCE),
+            Cmd::Ctx => b.push(C_CTX),
         }
     }
     b.push(C_END);
@@ -237,6 +250,8 @@ pub struct WorldModel {
     pub dead: Vec<bool>,
     /// surviving events: (emitter, topic)
     pub events: Vec<(usize, u8)>,
+    /// low 8 bytes of each contract's Ethereum address (what the report keeps of CALLER / ADDRESS)
+    pub addr_low: Vec<u64>,
 }
 
 pub enum FrameEnd {
@@ -247,7 +262,7 @@ pub enum FrameEnd {
 
 /// Run a script as contract `me` (code = interpreter) in storage context `ctx`.
 /// `ro`: static context. Returns how the frame ended; `w` is updated in place (journaled by the caller).
-fn run_frame(w: &mut WorldModel, ctx: usize, cmds: &[Cmd], ro: bool, depth: usize) -> FrameEnd {
+fn run_frame(w: &mut WorldModel, ctx: usize, cmds: &[Cmd], ro: bool, depth: usize, value: u64, sender: u64) -> FrameEnd {
     let mut rep: Vec<u64> = vec![];
     for c in cmds {
         match c {
@@ -274,6 +289,11 @@ fn run_frame(w: &mut WorldModel, ctx: usize, cmds: &[Cmd], ro: bool, depth: usiz
             }
             Cmd::TLoad(k) => rep.push(w.transient[ctx].get(k).copied().unwrap_or(0)),
             Cmd::Balance => rep.push(w.balance[ctx]),
+            Cmd::Ctx => {
+                rep.push(value);
+                rep.push(sender);
+                rep.push(w.addr_low[ctx]);
+            }
             Cmd::Log(t) => {
                 if ro {
                     return FrameEnd::Fail;
@@ -305,7 +325,7 @@ fn run_frame(w: &mut WorldModel, ctx: usize, cmds: &[Cmd], ro: bool, depth: usiz
                 } else {
                     w.balance[ctx] -= val;
                     w.balance[*t] += val;
-                    if w.dead[*t] { FrameEnd::Return(vec![]) } else { run_frame(w, *t, sub, ro, depth + 1) }
+                    if w.dead[*t] { FrameEnd::Return(vec![]) } else { let me = w.addr_low[ctx]; run_frame(w, *t, sub, ro, depth + 1, val, me) }
                 };
                 match end {
                     FrameEnd::Return(r) => {
@@ -325,7 +345,7 @@ fn run_frame(w: &mut WorldModel, ctx: usize, cmds: &[Cmd], ro: bool, depth: usiz
             }
             Cmd::Static(t, sub) => {
                 let snapshot = w.clone();
-                let end = if w.dead[*t] { FrameEnd::Return(vec![]) } else { run_frame(w, *t, sub, true, depth + 1) };
+                let end = if w.dead[*t] { FrameEnd::Return(vec![]) } else { let me = w.addr_low[ctx]; run_frame(w, *t, sub, true, depth + 1, 0, me) };
                 match end {
                     FrameEnd::Return(r) => {
                         rep.push(1);
@@ -345,7 +365,7 @@ fn run_frame(w: &mut WorldModel, ctx: usize, cmds: &[Cmd], ro: bool, depth: usiz
             Cmd::Delegate(t, sub) => {
                 // target's code (the same interpreter) against this context's storage, value and sender
                 let snapshot = w.clone();
-                let end = if w.dead[*t] { FrameEnd::Return(vec![]) } else { run_frame(w, ctx, sub, ro, depth + 1) };
+                let end = if w.dead[*t] { FrameEnd::Return(vec![]) } else { run_frame(w, ctx, sub, ro, depth + 1, value, sender) };
                 match end {
                     FrameEnd::Return(r) => {
                         rep.push(1);
@@ -380,7 +400,7 @@ fn gen_script(rng: &mut Rng, n: usize, depth: usize, vctr: &mut u64, allow_sd: b
     }
     for _ in 0..len {
         let k = rng.below(3) as u8;
-        let c = match rng.weighted(&[22, 20, 8, 8, if depth < 5 { 22 } else { 0 }, if depth < 5 { 5 } else { 0 }, if depth < 5 { 7 } else { 0 }, 3, if allow_sd { 2 } else { 0 }, 4, 2, 4]) {
+        let c = match rng.weighted(&[22, 20, 8, 8, if depth < 5 { 22 } else { 0 }, if depth < 5 { 5 } else { 0 }, if depth < 5 { 9 } else { 0 }, 3, if allow_sd { 2 } else { 0 }, 4, 2, 4, 8]) {
             0 => {
                 *vctr += 1;
                 Cmd::SStore(k, if rng.chance(1, 6) { 0 } else { *vctr })
@@ -398,7 +418,8 @@ fn gen_script(rng: &mut Rng, n: usize, depth: usize, vctr: &mut u64, allow_sd: b
             8 => Cmd::SelfDestruct(rng.below(n as u64) as usize),
             9 => Cmd::Log(rng.below(200) as u8),
             10 => Cmd::Invalid,
-            _ => Cmd::Balance,
+            11 => Cmd::Balance,
+            _ => Cmd::Ctx,
         };
         let end = matches!(c, Cmd::Revert | Cmd::Invalid | Cmd::SelfDestruct(_));
         v.push(c);
@@ -440,7 +461,7 @@ pub fn system(index: u64, mut rng: Rng, tier: Tier) -> Outcome {
         cs.push(c);
     }
     let eth: Vec<[u8; 20]> = cs.iter().map(|c| c.eth).collect();
-    let mut w = WorldModel { storage: vec![BTreeMap::new(); n], transient: vec![BTreeMap::new(); n], balance: vec![0; n], dying: vec![false; n], dead: vec![false; n], events: vec![] };
+    let mut w = WorldModel { storage: vec![BTreeMap::new(); n], transient: vec![BTreeMap::new(); n], balance: vec![0; n], dying: vec![false; n], dead: vec![false; n], events: vec![], addr_low: eth.iter().map(|e| u64::from_be_bytes(e[12..].try_into().unwrap())).collect() };
     for (i, c) in cs.iter().enumerate() {
         let amt = 1000 + 100 * i as u64;
         call0(&v, &from, &Address::new_id(c.id), &atto(amt), fvm_shared::METHOD_SEND);
@@ -470,7 +491,7 @@ pub fn system(index: u64, mut rng: Rng, tier: Tier) -> Outcome {
             FrameEnd::Return(vec![])
         } else {
             w.balance[entry] += val;
-            run_frame(&mut w, entry, &script, false, 0)
+            run_frame(&mut w, entry, &script, false, 0, val, from.id().unwrap())
         };
         let (want_ok, want_rep): (u8, Vec<u64>) = match end {
             FrameEnd::Return(r) => (0, r),
@@ -588,6 +609,7 @@ fn script_text(cmds: &[Cmd]) -> String {
             Cmd::Log(t) => format!("log {t}"),
             Cmd::Invalid => "invalid".into(),
             Cmd::Balance => "read balance".into(),
+            Cmd::Ctx => "read callvalue/caller/address".into(),
         });
     }
     s.join("; ")
